@@ -209,7 +209,17 @@ func (ex *Explorer) registerIntrinsics() {
 		return nil
 	}
 
+	m["github.com/welllog/golib/zzshim/ctl.Gate"] = m["vh/vx.Gate"]
+
 	registerStdIntrinsics(m)
+	// the gated shims a harness may use for its own bookkeeping are the operations they wrap
+	const shim = "github.com/welllog/golib/zzshim/"
+	for k, h := range m {
+		if strings.HasPrefix(k, "sync/atomic.") {
+			m[shim+"satomic."+strings.TrimPrefix(k, "sync/atomic.")] = h
+		}
+	}
+	m[shim+"sruntime.Gosched"] = m["runtime.Gosched"]
 }
 
 type obsRec struct {
